@@ -249,6 +249,29 @@ pub fn drive_c06(a: &Args) {
             }
         }
     }
+    // three letters: patterns of length 4 and 5 (all of them: repeats that are not adjacent need a third letter)
+    // against subjects made of a proper prefix of the pattern followed by the pattern
+    {
+        let l3 = [la, lb, 0x63];
+        for n in [4usize, 5] {
+            for code in 0..3usize.pow(n as u32) {
+                if n == 5 && !a.thorough() && code % 3 != (a.seed as usize) % 3 {
+                    continue;
+                }
+                let mut c = code;
+                let p: Vec<u32> = (0..n).map(|_| { let x = l3[c % 3]; c /= 3; x }).collect();
+                for k in 1..n {
+                    if !a.thorough() && n == 5 && k % 2 == 0 {
+                        continue;
+                    }
+                    let mut s = p[..k].to_vec();
+                    s.extend(p.iter());
+                    s.push(l3[(code + k) % 3]);
+                    call_all(&mut out, &s, &p, &vec![0x58], &[0, 1], &[0]);
+                }
+            }
+        }
+    }
     // long subjects over a RICH alphabet (64 code points from all planes): search algorithms with per-character
     // tables (skip tables, hashed or truncated indices) only show their flaws when many distinct characters meet
     {
